@@ -322,6 +322,9 @@ func (e *Exec) lookup(s *State, x *ssa.Lookup) Value {
 		k := e.val(s, x.Index).(*Node)
 		v := e.mapGet(s, mt, m, k)
 		e.assumeValInv(s, v, mt.Elem())
+		for _, mi := range e.mapInvsFor(x.X) {
+			s.assume(Implies(e.mapHas(s, mt, m, k), e.asHyp(func() *Node { return e.evalMapInv(mi, s, k, v, mt) })))
+		}
 		if x.CommaOk {
 			return &TupleV{E: []Value{v, e.mapHas(s, mt, m, k)}}
 		}
@@ -346,6 +349,13 @@ func (e *Exec) mapUpdate(s *State, x *ssa.MapUpdate) {
 		e.addObl(s, e.oblName("safety/nil-map"), "safety", Not(Eq(m, IntLit(0))), x.Pos(), "assignment to entry in nil map")
 	}
 	e.assertValInv(s, e.val(s, x.Value), x.Value.Type(), x, "stored into a map")
+	if e.quiet == 0 {
+		for _, mi := range e.mapInvsFor(x.Map) {
+			g := e.evalMapInv(mi, s, k, e.val(s, x.Value), mt)
+			e.obls = append(e.obls, &Obligation{Name: e.oblName("mapinv/" + mi.Var), Kind: "mapinv", Pos: x.Pos(), Goal: g, Hyp: s.pc, Func: e.funcKey,
+				Text: "stored into " + mi.Var + ": " + mi.Clause.Text, Props: unionProps(orProps(mi.Props, e.props)), Mode: e.mode, exec: e})
+		}
+	}
 	e.mapSet(s, mt, m, k, e.val(s, x.Value))
 }
 
@@ -420,6 +430,9 @@ func (e *Exec) rangeNext(s *State, x *ssa.Next) Value {
 		}
 		v := e.mapGet(s, mt, m, k)
 		e.assumeValInv(s, v, mt.Elem())
+		for _, mi := range e.mapInvsFor(rng.X) {
+			s.assume(Implies(ok, e.asHyp(func() *Node { return e.evalMapInv(mi, s, k, v, mt) })))
+		}
 		return &TupleV{E: []Value{ok, k, v}}
 	}
 	// string iteration: rune decoding not modelled
